@@ -75,6 +75,7 @@ struct Region {
 struct Named {  // identity of an instrumented object
     Region* reg = nullptr;
     const char* name = "?";
+    bool silent = false;  // outside every registered region and not aliased: private helper object, neither scheduled nor logged
 };
 
 // ------------------------------------------------------------------------------------------------
@@ -225,7 +226,10 @@ inline Named make_name(const void* self, char kind)
         std::string raw2 = std::string(1, kind) + std::to_string(k);
         auto ai = g_rt->aliases.find("anon");
         if (ai != g_rt->aliases.end() && ai->second.count(raw2)) n.name = intern(ai->second[raw2]);
-        else n.name = intern(std::string("anon.") + raw2);
+        else {
+            n.name = intern(std::string("anon.") + raw2);
+            n.silent = kind == 'm';  // e.g. the mutex inside each queued deferred task runner
+        }
     }
     return n;
 }
@@ -728,6 +732,10 @@ class vmutex_base {
     }
     void do_lock(const char* k)
     {
+        if (nm_.silent && free_excl()) {  // private, uncontended helper mutex: neither a step nor an event
+            owner_ = vrt::cur_id();
+            return;
+        }
         if (vrt::scheduled()) {
             vrt::PendOp op;
             op.kind = k;
@@ -776,6 +784,10 @@ class vmutex_base {
     }
     void do_unlock(const char* k)
     {
+        if (nm_.silent) {
+            owner_ = -1;
+            return;
+        }
         vrt::simple_point(k);
         vrt::check_uaf(nm_, k);
         long bad = (owner_ != vrt::cur_id()) ? 1 : 0;
